@@ -177,8 +177,16 @@ def b_cast(ex, st, node, args, kw):
     return args[1]
 
 
+dict_sum = z3.Function("dict_sum", S.CSetS, S.RMapS, z3.RealSort())
+
+
 def b_sum(ex, st, node, args, kw):
     (x,) = args
+    if isinstance(x, VSeq) and getattr(x, "values_of", None) is not None:
+        d = x.values_of[0]
+        return VNum(dict_sum(d.keys, d.vals), "real")
+    if isinstance(x, VDict):
+        raise OutOfReach("sum of dict keys")
     if isinstance(x, VSeq) and x.elem in (S.Int, S.Real, S.Float):
         sp = ex.ctx.registry.specs["ssum" if x.elem is not S.Int else "isum"]
         from .calls import apply_spec
@@ -231,7 +239,16 @@ def b_div(ex, st, node, args, kw):
     return VNum(to_real(a) / to_real(b), "real")
 
 
+def b_dsum(ex, st, node, args, kw):
+    """contract language: sum of the values of a dict (CPython: sum(d.values()))"""
+    (d,) = args
+    if isinstance(d, VOpt):
+        d = d.val
+    return VNum(dict_sum(d.keys, d.vals), "real")
+
+
 BUILTINS = {
+    "dsum": b_dsum,
     "implies": b_implies, "floor": b_floor, "div": b_div,
     "len": b_len, "int": b_int, "float": b_float, "Fraction": b_Fraction, "tuple": b_tuple, "list": b_list,
     "frozenset": b_frozenset, "set": b_frozenset, "abs": b_abs, "min": b_minmax(False), "max": b_minmax(True),
